@@ -105,3 +105,22 @@ package builder
 //@   modifies allheap, builtKind, builtFloat
 //@   may_panic
 //@   ensures builtKind == 2 && isNaN(float64frombits(builtFloat)) && ((builtFloat & 0x0008000000000000) == 0) == signaling
+
+// ---------------------------------------------------------------------------------------------
+// Type cache (C16, C07): same placeholder protocol as iterator.Session.GetIteratorForType. If the
+// generator fails (panics, e.g. for an unsupported kind) the cache entry for dstType must be what
+// it was before the call; a placeholder left behind makes every later use of the same session
+// wait forever. Assumed about the generator: it reaches the cache only through
+// GetBuilderGeneratorForType, which never changes whether an entry for dstType exists while its
+// placeholder is installed.
+//@ extern github.com/kstenerud/go-concise-encoding/builder::(*Session).defaultBuilderGeneratorForType
+//@   modifies smHas, alloc
+//@   ensures smHas[smKey(uint64(_this.builderGenerators), dstType)] == old(smHas[smKey(uint64(_this.builderGenerators), dstType)])
+//@   xensures smHas[smKey(uint64(_this.builderGenerators), dstType)] == old(smHas[smKey(uint64(_this.builderGenerators), dstType)])
+
+//@ func (*Session).GetBuilderGeneratorForType
+//@   requires _this != nil
+//@   modifies smHas, alloc
+//@   runtime_panics
+//@   ensures smHas[smKey(uint64(_this.builderGenerators), dstType)]
+//@   xensures smHas[smKey(uint64(_this.builderGenerators), dstType)] == old(smHas[smKey(uint64(_this.builderGenerators), dstType)])
